@@ -5,6 +5,7 @@ import (
 	"sort"
 	"strings"
 	"sync"
+	"sync/atomic"
 	"time"
 
 	"github.com/go-sql-driver/mysql"
@@ -105,16 +106,19 @@ type Engine struct {
 	lockWait time.Duration
 	xa       map[string]*xaRec
 	sessions map[int]*session
-	nextConn int
-	nextTxn  int
-	journal  []Entry
-	seq      int
-	faults   []*faultState
-	fired    int
-	clock    func() time.Time
-	interp   bool  // emulate interpolateParams=true (text protocol for conn-level queries with args)
-	skipFast bool  // emulate interpolateParams=false fully: conn-level Exec/Query with arguments answer driver.ErrSkip
-	autoStep int64 // auto_increment_increment of this server (0 or 1: every value; offset is 1)
+	// openStmts: server-side prepared statements not closed yet (a server allows max_prepared_stmt_count of
+	// them, 16382 by default; a statement a client forgets to close stays until its connection ends)
+	openStmts int64
+	nextConn  int
+	nextTxn   int
+	journal   []Entry
+	seq       int
+	faults    []*faultState
+	fired     int
+	clock     func() time.Time
+	interp    bool  // emulate interpolateParams=true (text protocol for conn-level queries with args)
+	skipFast  bool  // emulate interpolateParams=false fully: conn-level Exec/Query with arguments answer driver.ErrSkip
+	autoStep  int64 // auto_increment_increment of this server (0 or 1: every value; offset is 1)
 }
 
 // SetAutoIncStep sets the server's auto_increment_increment (auto_increment_offset stays 1): generated
@@ -629,6 +633,10 @@ func (e *Engine) matchFault(s *session, kind, tbl string) error {
 }
 
 // ---- inspection ----
+
+// OpenStmts is the number of prepared statements that have been prepared and not closed (statements of
+// connections that were closed meanwhile are still counted: the harness looks at differences on live pools).
+func (e *Engine) OpenStmts() int64 { return atomic.LoadInt64(&e.openStmts) }
 
 // OpenTxns lists ids of connections currently inside a transaction.
 func (e *Engine) OpenTxns() []int {
